@@ -384,6 +384,42 @@ func runC11(r *Run) {
 		r.atLeast("exported-field tests in SetValWithStruct", n, 1)
 	})
 
+	r.rule("R8", "a multipart request is bound from the multipart form or not at all: in FormBinding.Bind the media type is compared with `multipart/form-data`, and from the equal edge the url-encoded reading (PostArgs) is unreachable — a decision taken on a derived value (a boundary was found) lets `multipart/form-data` without a usable boundary fall through, bind nothing and report success (E1)", func() {
+		f := r.Fn("binder", "(*FormBinding).Bind")
+		var eq []edge
+		for _, br := range branchesIn(f) {
+			if lit, ok := constString(br.Info.Const); ok && lit == "multipart/form-data" {
+				if sl, ok := br.slotFor(token.EQL); ok {
+					eq = append(eq, edge{br.If.Block(), sl})
+				}
+			}
+		}
+		isPostArgs := func(in ssa.Instruction) bool { return isCallTo(in, nameHasSuffix("fasthttp.Request).PostArgs")) }
+		r.need(len(instrsWhere(f, isPostArgs)) >= 1, "FormBinding.Bind reads the url-encoded arguments")
+		ok := len(eq) >= 1
+		for _, e := range eq {
+			if _, hit := reachEdge(e, isPostArgs, nil, nil); hit != nil {
+				ok = false
+			}
+		}
+		// … and the url-encoded reading is reachable only around that comparison
+		if ok {
+			cut := map[edge]bool{}
+			for _, br := range branchesIn(f) {
+				if lit, isLit := constString(br.Info.Const); isLit && lit == "multipart/form-data" {
+					if sl, ok2 := br.slotFor(token.NEQ); ok2 {
+						cut[edge{br.If.Block(), sl}] = true
+					}
+				}
+			}
+			if _, hit := reach(entryOf(f), isPostArgs, cut, nil); hit != nil {
+				ok = false
+			}
+		}
+		r.check(ok, "FormBinding.Bind:multipart-by-media-type", r.fpos(f), "the url-encoded reading is reachable only through the `media type != multipart/form-data` edge",
+			"FormBinding.Bind does not decide on the media type itself: `Content-Type: multipart/form-data` without a (usable) boundary is read as url-encoded, nothing is bound and no error is reported — the handler gets 200 with an untouched destination instead of 400")
+	})
+
 	r.rule("R5", "visitor error latch (E1)", func() {
 		n := 0
 		for _, b := range []string{"HeaderBinding", "RespHeaderBinding", "CookieBinding", "QueryBinding", "FormBinding"} {
